@@ -53,7 +53,8 @@ struct Case
     }
 };
 
-static const char* NAMES[] = { "a", "b", "c" };
+// "--a": a name spelled with leading dashes is a different (and unreachable) name, not "a"
+static const char* NAMES[] = { "a", "b", "c", "--a" };
 static const char* LETTERS[] = { "x", "y", "", "xy", "z", "\xe4" };
 static const char* ENVS[] = { "NITRO_VERIF_D1", "NITRO_VERIF_D2" };
 static const char* METAVARS[] = { "FILE", "", "N" };
@@ -74,19 +75,19 @@ std::string describe(const Case& c)
         {
         case DECL:
             o << (op.group % 7 == 0 ? "parser" : std::string(op.group % 7 >= 4 ? "held-group(" : "group(") + GROUPS[op.group % 7] + ")") << "."
-              << KINDS[op.kind % 3] << "(" << NAMES[op.name % 3] << ") ";
+              << KINDS[op.kind % 3] << "(" << NAMES[op.name % 4] << ") ";
             break;
         case SHORT:
-            o << NAMES[op.name % 3] << ".short_name(\"" << LETTERS[op.arg % 6] << "\") ";
+            o << NAMES[op.name % 4] << ".short_name(\"" << LETTERS[op.arg % 6] << "\") ";
             break;
         case ENV:
-            o << NAMES[op.name % 3] << ".env(" << ENVS[op.arg % 2] << ") ";
+            o << NAMES[op.name % 4] << ".env(" << ENVS[op.arg % 2] << ") ";
             break;
         case METAVAR:
-            o << NAMES[op.name % 3] << ".metavar(\"" << METAVARS[op.arg % 3] << "\") ";
+            o << NAMES[op.name % 4] << ".metavar(\"" << METAVARS[op.arg % 3] << "\") ";
             break;
         case DEFAULT:
-            o << NAMES[op.name % 3] << ".default_value ";
+            o << NAMES[op.name % 4] << ".default_value ";
             break;
         case GROUP:
             o << "group(" << GROUPS[2 + op.arg % 2] << ") ";
@@ -125,7 +126,7 @@ Case generate(vf::Src& src, const std::string& mode)
         {
             op.code = static_cast<int>(src.weighted({ 40, 22, 5, 4, 4, 7, 18 }));
             op.kind = src.irange(0, 2);
-            op.name = src.irange(0, 2);
+            op.name = src.coin(92) ? src.irange(0, 2) : 3;
             op.group = src.coin(75) ? src.irange(0, 3) : src.irange(4, 6);
             op.arg = src.irange(0, 5);
             if (op.code == SHORT) // favour collisions on the letters x and y (and a high-bit byte)
@@ -162,7 +163,7 @@ std::string check(const Case& c, vf::Ctx& ctx)
 
     for (const Op& op : c.ops)
     {
-        std::string name = NAMES[op.name % 3];
+        std::string name = NAMES[op.name % 4];
         int g = op.group % 7;
         const bool via_held = g >= 4;
         if (via_held)
@@ -224,6 +225,16 @@ std::string check(const Case& c, vf::Ctx& ctx)
                 if (threw_parser_error)
                     return std::string("first declaration of '") + name + "' was rejected" + where(op);
                 model[name] = Entry{ kind, gnorm, addr, "", "", false };
+                // a name with leading dashes can never be spelled on a command line: it must not
+                // be required
+                if (name[0] == '-')
+                {
+                    ctx.tag("decl:dashed-name");
+                    if (kind == 0)
+                        static_cast<option*>(addr)->optional();
+                    else if (kind == 1)
+                        static_cast<multi_option*>(addr)->optional();
+                }
             }
             else if (it->second.kind == kind && it->second.group == gnorm)
             {
@@ -385,6 +396,8 @@ std::string check(const Case& c, vf::Ctx& ctx)
         const std::string& n = kv.first;
         const Entry& e = kv.second;
         ++serial;
+        if (n[0] == '-')
+            continue; // unreachable from the command line; its letter, if any, still counts
         if (e.kind == 0)
         {
             std::string v = "val-" + n;
